@@ -204,7 +204,7 @@ class Gen:
             ("vector_rt", 4 * w.get("relayout", 1)), ("scalar_rt", 4 * w.get("relayout", 1)), ("images_rt", 3 * w.get("relayout", 1)),
             ("subset", 3), ("get_one", 2), ("copy", 2), ("mismatch", 2),
             ("obs_group", 5 * w.get("obs", 1)), ("obs_norm", 3 * w.get("obs", 1)), ("obs_pool", 3 * w.get("obs", 1)),
-            ("obs_component", 2 * w.get("obs", 1)), ("obs_images", 2 * w.get("obs", 1)),
+            ("obs_component", 2 * w.get("obs", 1)), ("obs_batch_component", 2 * w.get("obs", 1)), ("obs_images", 2 * w.get("obs", 1)),
             ("loss", 8 * w.get("loss", 1)), ("drop", 3),
         ]
         total = sum(x for _, x in kinds)
@@ -488,6 +488,23 @@ class Gen:
         fs = self.rng.choice([d for d in range(1, g + 1) if g % d == 0])
         total = sum((b.shape[0] // fs) * self.D ** t[0] for t, b in r.blocks.items())
         self.emit({"op": "obs_component", "a": a, "component": self.rng.randrange(total), "future_steps": fs})
+
+    def g_obs_batch_component(self):
+        a = self.pick(lambda r: len(r.blocks) >= 1 and r.n_lead() == 2 and r.batch_uniform())
+        if a is None:
+            return
+        r = self.refs[a]
+        g = 0
+        for b in r.blocks.values():
+            g = math.gcd(g, b.shape[1])
+        fs = self.rng.choice([d for d in range(1, g + 1) if g % d == 0])
+        total = sum((b.shape[1] // fs) * self.D ** t[0] for t, b in r.blocks.items())
+        if self.rng.random() < 0.4:
+            comp: Any = self.rng.randrange(total)
+        else:
+            lo = self.rng.randrange(total)
+            comp = [lo, self.rng.randint(lo + 1, total)]
+        self.emit({"op": "obs_batch_component", "a": a, "component": comp, "future_steps": fs})
 
     def g_obs_images(self):
         a = self.pick(lambda r: len(r.blocks) >= 1)
@@ -799,6 +816,17 @@ def _apply_ref(op: dict, refs: dict, D: int) -> bool:
             return False
         total = sum((v.shape[0] // fs) * D ** t[0] for t, v in a.blocks.items())
         return op["component"] < total
+    if o == "obs_batch_component":
+        _need(refs, op["a"])
+        a = refs[op["a"]]
+        if not a.blocks or a.n_lead() != 2 or not a.batch_uniform():
+            return False
+        fs = op["future_steps"]
+        if any(v.shape[1] % fs for v in a.blocks.values()):
+            return False
+        total = sum((v.shape[1] // fs) * D ** t[0] for t, v in a.blocks.items())
+        c = op["component"]
+        return (c < total) if isinstance(c, int) else (0 <= c[0] < c[1] <= total)
     if o == "obs_images":
         _need(refs, op["a"])
         return bool(refs[op["a"]].blocks)
@@ -990,7 +1018,7 @@ PROP_OF = {
     "combine_axes": ("C13", "combine_axes"), "merge_axes": ("C13", "merge_axes"), "reshape_pmap": ("C13", "reshape_pmap"),
     "new": ("C13", "construct"), "new_shaped": ("C13", "construct"), "append": ("C13", "append"), "get_subset": ("C13", "subset"), "get_one": ("C13", "subset"),
     "drop": ("C13", "aliasing"), "obs_group": ("C14", "group_action"), "obs_norm": ("C14", "norm"), "obs_pool": ("C14", "average_pool"),
-    "obs_component": ("C14", "get_component"), "obs_images": ("C14", "to_images"), "loss": ("C18", "loss"),
+    "obs_component": ("C14", "get_component"), "obs_batch_component": ("C14", "batch_get_component"), "obs_images": ("C14", "to_images"), "loss": ("C18", "loss"),
 }
 
 
@@ -1199,9 +1227,10 @@ def _run_real(op, regs, refs_after, D, bump, viol, log):
         fs = op["future_steps"]
         res = guarded(lambda: a.get_component(op["component"], fs), "get_component")
         bump("obs_component")
-        # definition: per type (in storage order) channels c=(C/fs), components row-major; pick flat index
+        # definition: per type in sorted (k,parity) order - the order must not depend on the storage history, and it is the
+        # order the batched variant sees - channels c=(C/fs), components row-major; pick flat index
         flat_list = []
-        for (k, p), blk in a.items():
+        for (k, p), blk in sorted(a.items()):
             C = blk.shape[0] // fs
             x = np.asarray(blk).reshape((C, fs) + tuple(a.get_spatial_dims()) + (-1,))
             for c in range(C):
@@ -1211,6 +1240,20 @@ def _run_real(op, regs, refs_after, D, bump, viol, log):
         got = np.asarray(res[(0, 0)])
         if got.shape != want.shape or not np.array_equal(got, want):
             fail("get_component", {"component": op["component"], "future_steps": fs, "order": _order(a)})
+    elif o == "obs_batch_component":
+        a = regs[op["a"]]
+        fs = op["future_steps"]
+        c = op["component"]
+        comp = c if isinstance(c, int) else slice(c[0], c[1])
+        res = guarded(lambda: a.batch_get_component(comp, fs), "batch_get_component")
+        bump("obs_batch_component")
+        B = a.get_L()
+        # per batch entry: the single (un-batched) multi-image operation on that entry alone
+        singles = [np.asarray(a.get_one(b, keepdims=False).get_component(comp, fs)[(0, 0)]) for b in range(B)]
+        want = np.stack(singles)
+        got = np.asarray(res[(0, 0)]) if (0, 0) in res else None
+        if got is None or got.shape != want.shape or not np.array_equal(got, want):
+            fail("batch_get_component", {"component": c, "future_steps": fs, "batch": B, "got_shape": None if got is None else list(got.shape), "want_shape": list(want.shape), "order": _order(a)})
     elif o == "obs_images":
         a = regs[op["a"]]
         imgs = guarded(lambda: a.to_images(), "to_images")
